@@ -131,7 +131,7 @@ def run(ctx, res):
     mult = 3 if ctx['deepen'] else 1
     # ---- histories of streams on one Indenter object vs the model (which restarts from St.init: process_resets)
     hist = []
-    for _ in range(tier_scale(tier, 8000, 100000) * mult):
+    for _ in range(tier_scale(tier, 20000, 120000) * mult):
         tab_len = rng.choice(TAB_LENS)
         streams, specs = [], []
         for _ in range(rng.randint(1, 4)):
@@ -178,7 +178,7 @@ def run(ctx, res):
                                'model': {'out': exp_out, 'err': exp_err}})
                 break
     # ---- CPython's tokenizer as an additional oracle (first line unindented, spaces only)
-    srcs = [gen_source(rng) for _ in range(tier_scale(tier, 3000, 30000) * mult)]
+    srcs = [gen_source(rng) for _ in range(tier_scale(tier, 6000, 36000) * mult)]
     outs = pmap(_e2e, srcs, chunksize=64)
     for text, (st, r) in zip(srcs, outs):
         res.case(['cpy', text], nontrivial=True, sample={'source': text, 'lark_vs_cpython': r} if len(res.samples) < 5 and 'I' in str(r) else None)
